@@ -181,6 +181,7 @@ type Env struct {
 	Stores  map[string]dtls.SessionStore
 	Extra   map[string][]dtls.Option // extra options by endpoint name (hooks etc.)
 	Sim     *Sim
+	KeyLogs map[string]*KeyLog // non-nil: every endpoint gets a key-log writer, stored here by name
 	Loggers map[string]*simLoggerFactory
 }
 
@@ -313,6 +314,11 @@ func (e EpSpec) Options(server bool, env *Env, name string) (copts []dtls.Client
 		add(dtls.WithPaddingLengthGenerator(func(uint) uint { return 7 }))
 	case 2:
 		add(dtls.WithPaddingLengthGenerator(func(n uint) uint { return (16 - n%16) % 16 }))
+	}
+	if env != nil && env.KeyLogs != nil {
+		kl := &KeyLog{}
+		env.KeyLogs[name] = kl
+		add(dtls.WithKeyLogWriter(kl))
 	}
 	if env != nil {
 		shared = append(shared, env.Extra[name]...)
